@@ -29,6 +29,7 @@ META = {
                     "a send refused with FIXConnectionError is a legal outcome for a sender (it must consume nothing)"],
 }
 REQUIRED_ORACLES = ["wire-order", "journal-row", "stored-counter", "no-duplicate-error", "all-tasks-finish", "gapfill-coverage"]
+REQUIRED_COUNTERS = ["schedules_with_socket_death", "schedules_by_scenario:S2", "schedules_by_scenario:S8"]
 NSHARDS = 16
 SCEN = ["S1", "S1b", "S2", "S2b", "S2c", "S3", "S3b", "S4", "S5", "S6", "S7", "S8", "S8b"]
 DEPTH = {"quick": 7, "thorough": 11}
